@@ -321,6 +321,57 @@ def _run_inputs(args) -> list[dict]:
 	return records
 
 
+SENTINEL = 'sentinel_ok = 12345'
+
+
+def _interactive_session(args) -> dict:
+	"""The real interactive loop (bin/transpile.py Interactive.run, tty replaced) fed with the inputs, a valid text after
+	each: whatever an input does, the loop prints a result or an error and keeps running"""
+	inputs, = args
+	import contextlib
+	import io
+	from harness.tranp_env import enter_scratch, transpiler_definitions
+	root = enter_scratch('verif-c07-it-')
+	import rogw.tranp.bin.transpile as cli
+	from rogw.tranp.app.app import App
+	from rogw.tranp.lang.locator import Invoker
+	from rogw.tranp.lang.module import to_fullyname
+	failures = []
+	alive = 0
+	for label, source in inputs:
+		lines = source.rstrip('\n').split('\n')
+		if any(ln.strip() == 'exit' for ln in lines):
+			continue
+		feed = iter([lines, [SENTINEL], ['exit']])
+		org_tty = cli.tty
+
+		def fake_tty(prompt: str):
+			print(prompt)
+			return next(feed)
+
+		cli.tty = fake_tty
+		defs = transpiler_definitions(os.path.join(root, 'cache-it'))
+		defs.pop(to_fullyname(cli.SourceProvider), None)
+		defs.pop(to_fullyname(cli.ModuleMetaFactory), None)
+		out = io.StringIO()
+		crashed = None
+		try:
+			with contextlib.redirect_stdout(out):
+				App(defs).resolve(Invoker)(cli.Interactive).run()
+		except BaseException as e:
+			crashed = f'{type(e).__name__}: {str(e)[:120]}'
+		finally:
+			cli.tty = org_tty
+		text = out.getvalue()
+		if crashed is not None:
+			failures.append({'label': label, 'source': source, 'detail': f'the interactive loop ended with {crashed}', 'kind': crashed.split(":")[0]})
+		elif 'sentinel_ok = 12345' not in text.split('Python code here')[-2 if text.count('Python code here') >= 2 else -1] and 'int sentinel_ok = 12345;' not in text:
+			failures.append({'label': label, 'source': source, 'detail': f'the valid text typed after the input was not transpiled: ...{text[-200:]!r}', 'kind': 'loop-dead'})
+		else:
+			alive += 1
+	return {'failures': failures, 'alive': alive}
+
+
 def run(ctx: Ctx) -> int:
 	quick = ctx.quick
 	coded = tlc.run('MCErrFlow', 'ErrFlow_coded.cfg', workers=4, timeout=300)
@@ -356,10 +407,22 @@ def run(ctx: Ctx) -> int:
 		records = [r for chunk in ex.map(_run_inputs, [(inputs[i::nproc],) for i in range(nproc)]) for r in chunk]
 	ctx.log(f'{len(inputs)} inputs x 2 storage modes run through the pipeline')
 
+	# the interactive loop: every kind of input, a valid text after each
+	it_inputs = list(inputs)
+	with ProcessPoolExecutor(max_workers=nproc) as ex:
+		sessions = list(ex.map(_interactive_session, [(it_inputs[i::nproc],) for i in range(nproc)]))
+	it_fail = [f for r in sessions for f in r['failures']]
+	ctx.log(f'interactive loop: {len(it_inputs)} inputs, each followed by a valid text: the loop survived {sum(r["alive"] for r in sessions)}, {len(it_fail)} failures')
 	violations: list[Violation] = []
 	for r in records:
 		if r['label'].startswith('valid:') and r['stage'] != 'done':
 			raise Machinery(f'a base program does not transpile on this tree: {r["label"]} {r["input_mode"]} {r.get("escaped_class")} at {r.get("where")} after {r.get("session")}')
+	it_groups: dict[str, list] = {}
+	for f in it_fail:
+		it_groups.setdefault(f'InteractiveKeepsRunning:{f["kind"]}', []).append(f)
+	for key, fs in sorted(it_groups.items()):
+		sm = min(fs, key=lambda f: len(f['source']))
+		violations.append(Violation(key, 'InteractiveKeepsRunning', f'{sm["detail"]} on {sm["source"][:80]!r} ({len(fs)} inputs)', {'source': sm['source'], 'label': sm['label']}))
 	timeouts = [r for r in records if r['stage'] == 'timeout']
 	for r in timeouts[:3]:
 		violations.append(Violation(f'timeout:{r["label"].split(":")[0]}', 'Terminates', f'processing did not finish within 10 s: {r["label"]} ({r["input_mode"]})', {'source': r['source']}))
@@ -431,6 +494,7 @@ def run(ctx: Ctx) -> int:
 		'mutation_descriptors_from_tlc': len(descs),
 		'outcomes': dict(sorted(outcomes.items(), key=lambda kv: -kv[1])),
 		'foreign_leak_sites': sorted(leaks),
+		'interactive_inputs': len(it_inputs),
 		'stage_raised_witnessed': dict(sorted(witnessed.items())),
 		'timeouts': len(timeouts),
 		'error_render_failures': len(render_fail),
